@@ -487,8 +487,38 @@ class ExprBuilder(ast.NodeTransformer):
             merge_bb = self.cfg.new_bb(true_bb, false_bb)
             self.bb = merge_bb
             return make_var(tmp, node)
+        # Operands that are built into their own statements or basic blocks (`:=`,
+        # conditional and short-circuit expressions) run before the rest of the
+        # enclosing expression. To keep Python's left-to-right evaluation order, operands
+        # with side effects that come before such an operand are bound to temporaries.
+        if isinstance(node, ast.expr):
+            operands = [c for c in ast.iter_child_nodes(node) if isinstance(c, ast.expr)]
+            built_early = [i for i, c in enumerate(operands) if is_built_early(c)]
+            if built_early:
+                bind = {id(c) for c in operands[: built_early[-1]] if has_call(c)}
+                if bind:
+                    return self._visit_binding_operands(node, bind)
         # For all other expressions, just recurse deeper with the node transformer
         return super().generic_visit(node)
+
+    def _visit_binding_operands(self, node: ast.expr, bind: set[int]) -> ast.expr:
+        """Visits the children of an expression in evaluation order, binding the results
+        of the given operands to temporary variables."""
+
+        def visit_operand(operand: ast.AST) -> ast.AST:
+            new = self.visit(operand)
+            if id(operand) in bind:
+                tmp = next(tmp_vars)
+                self._tmp_assign(tmp, new, self.bb)
+                new = make_var(tmp, operand)
+            return new
+
+        for field, old in ast.iter_fields(node):
+            if isinstance(old, list):
+                old[:] = [visit_operand(v) if isinstance(v, ast.AST) else v for v in old]
+            elif isinstance(old, ast.AST):
+                setattr(node, field, visit_operand(old))
+        return node
 
 
 class BranchBuilder(AstVisitor[None]):
@@ -722,6 +752,24 @@ def is_short_circuit_expr(node: ast.AST) -> bool:
     return isinstance(node, ast.BoolOp) or (
         isinstance(node, ast.Compare) and len(node.comparators) > 1
     )
+
+
+def is_built_early(node: ast.AST) -> bool:
+    """Checks if building an expression adds statements or basic blocks, i.e. if (part of)
+    it is evaluated before the expression it occurs in."""
+    return bool(
+        find_nodes(
+            lambda n: isinstance(n, ast.NamedExpr | ast.IfExp)
+            or is_short_circuit_expr(n),
+            node,
+            {ast.ListComp, ast.GeneratorExp, ast.Lambda},
+        )
+    )
+
+
+def has_call(node: ast.AST) -> bool:
+    """Checks if an expression contains a call, i.e. might have a side effect."""
+    return bool(find_nodes(lambda n: isinstance(n, ast.Call), node))
 
 
 def is_illegal_in_list_comp(node: ast.AST) -> bool:
